@@ -14,6 +14,7 @@ import (
 	"os"
 	"path/filepath"
 	"strings"
+	"sync"
 	"time"
 
 	"github.com/google/gce-tcb-verifier/cmd"
@@ -170,6 +171,93 @@ func reloadOnDisk(s *kmfx.Store) string {
 	return ""
 }
 
+// longHistory is the scale probe: one store that lives through hundreds of rotations, until its
+// manifest is well past 64 KiB (the Cloud KMS key manager over the model service, whose long key
+// version names make the manifest grow fast, one long-lived set of objects, key material from the
+// model's pool). The store is judged at every crash point of every rotation like the short
+// histories (in recorded write order; in memory only - copying hundreds of objects to disk per
+// crash point adds nothing the short histories do not already cover).
+func longHistory(r *mc.Run, t0, now time.Time) {
+	const stopAt = 80 << 10
+	replaying := r.Replaying() && strings.HasPrefix(r.ReplayID, "history=long/")
+	if r.Replaying() && !replaying {
+		return
+	}
+	kmfx.PoolKMSKeys = true
+	kmfx.WarmKeyPool(kmfx.PoolSize)
+	w := kmfx.NewWorld(kmfx.GcpGcs)
+	w.OneProcess = true
+	if err := w.Bootstrap(kmfx.DefaultBootstrap(t0), kmfx.Flags{}, nil); err != nil {
+		mc.Fatal("long history bootstrap: %v", err)
+	}
+	type job struct {
+		h history
+		n int
+	}
+	jobs := make(chan job, 16)
+	var wg sync.WaitGroup
+	for i := 0; i < 12; i++ {
+		wg.Add(1)
+		go func() {
+			defer wg.Done()
+			for j := range jobs {
+				for k := 0; k <= len(j.h.log); k++ {
+					h, k := j.h, k
+					id := fmt.Sprintf("history=%s order=%s prefix=%d", h.name, names(h.log), k)
+					r.Case(id, func() string {
+						s := materialise(h.pre, h.log, k)
+						ps := problems(s, now, false)
+						r.Eval()
+						for _, p := range ps {
+							r.Violation("long-history/"+p[0], id, fmt.Sprintf("crash after write %d of [%s] in rotation %d (manifest %d bytes): %s", k, names(h.log), j.n, manifestSize(s), p[1]), nil)
+						}
+						if k > 0 && k < len(h.log) {
+							r.Nontrivial(id)
+						}
+						r.Outcome("long-history")
+						return fmt.Sprint(ps)
+					})
+				}
+			}
+		}()
+	}
+	n, size := 0, 0
+	for size < stopAt && n < 1500 {
+		n++
+		h, err := record(fmt.Sprintf("long/rotation-%d", n), w, func() error {
+			_, e := w.Rotate(kmfx.RotateOpts{Now: t0.Add(time.Duration(n) * time.Minute)}, kmfx.Flags{}, nil)
+			return e
+		})
+		if len(h.log) > 0 {
+			jobs <- job{h, n}
+		}
+		if err != nil {
+			// not a clause of the statement; the stores it left behind are judged above
+			r.Set("long_history_stopped_at", fmt.Sprintf("rotation %d: %v", n, err))
+			break
+		}
+		size = manifestSize(w.Store)
+	}
+	close(jobs)
+	wg.Wait()
+	r.Set("long_history_rotations", n)
+	r.Set("long_history_final_manifest_bytes", size)
+	if size < 70<<10 && !replaying {
+		r.Cap(fmt.Sprintf("the long history ended with a manifest of %d bytes (wanted more than 64 KiB)", size))
+	}
+}
+
+func manifestSize(s *kmfx.Store) int {
+	m := 0
+	for _, n := range s.Names(kmfx.Bucket) {
+		if strings.HasSuffix(n, "keyManifest.textproto") {
+			b, _ := s.Get(kmfx.Bucket, n)
+			m = len(b)
+		}
+	}
+	return m
+}
+
 func record(name string, w *kmfx.World, op func() error) (history, error) {
 	pre := w.Store.Clone()
 	w.Store.Log = nil
@@ -321,8 +409,8 @@ func main() {
 			}
 			if err == nil && k >= 0 {
 				// Not a clause of the statement (an operation may recover from a failed write); the
-			// stores this log leaves behind are judged below like any other.
-			r.Outcome("success-reported-although-a-write-failed:" + op.name)
+				// stores this log leaves behind are judged below like any other.
+				r.Outcome("success-reported-although-a-write-failed:" + op.name)
 			}
 			hs = append(hs, history{name: name, pre: pre, log: append([]kmfx.WriteRec(nil), wf.Store.Log...)})
 		}
@@ -351,6 +439,7 @@ func main() {
 		}
 		r.Validated()
 	}
+	longHistory(r, t0, now)
 	r.Set("conformance_runs", reps)
 	r.Set("conformance_distinct_observed_orders", len(seen))
 	for _, h := range hs {
